@@ -909,6 +909,12 @@ fn structured_op(r: &mut Rng, sh: &mut Shadow, racy: bool, file: bool) -> String
             return format!("{}f{}:0.0:{}", a, b, show_es(&es));
         }
         let mut es: Vec<_> = sh.log[start..].to_vec();
+        if back >= 2 && r.chance(1, 3) {
+            // a strict prefix of what is already there (delayed / retransmitted request that does not reach the tail)
+            es.truncate(r.range(1, back - 1) as usize);
+            sh.fca(pi, pt, &es);
+            return format!("f:{}.{}:{}", pi, pt, show_es(&es));
+        }
         let k = r.range(0, 2);
         let t = bump(r, sh);
         let more = sh.run(sh.next(), k, t);
@@ -948,10 +954,11 @@ fn structured_op(r: &mut Rng, sh: &mut Shadow, racy: bool, file: bool) -> String
         let es = sh.run(pi + 2, 1, pt + 1);
         format!("f:{}.{}:{}", pi + 1, pt + 1, show_es(&es))
     } else if roll < 66 {
-        // start from scratch
+        // start from scratch: above the purge boundary, or (a leader that lost track of this follower) from index 1
         let k = r.range(0, 3);
         let t = r.range(1, 3);
-        let es = sh.run(sh.anchor.0 + 1, k, t);
+        let from = if sh.anchor.0 > 0 && r.chance(1, 2) { 1 } else { sh.anchor.0 + 1 };
+        let es = sh.run(from, k, t);
         sh.log = es.clone();
         sh.synced = false;
         let (a, b) = sched(r, racy);
@@ -1017,6 +1024,82 @@ fn structured_case(r: &mut Rng, racy: bool, file: bool) -> String {
         ops.push(if !file && r.chance(1, 2) { "c:w".into() } else { "c:p".into() });
     }
     format!("{}|{}", if file { "e=file" } else { "e=sim" }, ops.join(";"))
+}
+
+/// scripted shapes that random structured generation reaches only rarely: restart of the log below the purge
+/// boundary followed by a crash; two truncations before an fsync; truncation right after unpersisted appends
+fn scenario_case(r: &mut Rng) -> String {
+    let mut sh = Shadow::new();
+    let mut ops: Vec<String> = Vec::new();
+    let n0 = r.range(2, 5);
+    let es = sh.run(1, n0, 1);
+    sh.log = es.clone();
+    ops.push(format!("a:{}", show_es(&es)));
+    if r.chance(2, 3) {
+        ops.push(if r.chance(1, 2) { "io".into() } else { "fl".into() });
+    }
+    match r.below(3) {
+        0 => {
+            // purge, then the log restarts from index 1 (below the boundary), persist, crash
+            let ci = r.range(1, n0);
+            let ct = sh.term_at(ci).unwrap_or(1);
+            ops.push(format!("p:{}.{}", ci, ct));
+            sh.log.retain(|e| e.0 > ci);
+            sh.anchor = (ci, ct);
+            if r.chance(1, 2) {
+                ops.push("r".into());
+            }
+            let k = r.range(1, ci + 1);
+            let es = sh.run(1, k, 2);
+            ops.push(format!("f:0.0:{}", show_es(&es)));
+            sh.log = es;
+            if r.chance(1, 2) {
+                let t = sh.tcur();
+                let more = sh.run(sh.next(), r.range(1, 2), t);
+                sh.log.extend_from_slice(&more);
+                ops.push(format!("a:{}", show_es(&more)));
+            }
+            ops.push(if r.chance(1, 2) { "io".into() } else { "fl".into() });
+        }
+        1 => {
+            // two conflict truncations in a row, the second one shorter, then fsync, append, fsync
+            let d1 = r.range(2, n0);
+            let t1 = sh.tcur() + 1;
+            let tail1 = sh.run(d1, r.range(2, 4), t1);
+            let (pi, pt) = (d1 - 1, sh.term_at(d1 - 1).unwrap_or(1));
+            sh.fca(pi, pt, &tail1);
+            ops.push(format!("f:{}.{}:{}", pi, pt, show_es(&tail1)));
+            let tail2 = sh.run(d1, 1, t1 + 1);
+            sh.fca(pi, pt, &tail2);
+            ops.push(format!("f:{}.{}:{}", pi, pt, show_es(&tail2)));
+            ops.push(if r.chance(1, 2) { "fl".into() } else { "+io".into() });
+            let t = sh.tcur();
+            let more = sh.run(sh.next(), r.range(1, 2), t);
+            sh.log.extend_from_slice(&more);
+            ops.push(format!("a:{}", show_es(&more)));
+            ops.push("fl".into());
+        }
+        _ => {
+            // unpersisted appends, then a truncation below them
+            let t = sh.tcur();
+            let more = sh.run(sh.next(), r.range(1, 3), t);
+            sh.log.extend_from_slice(&more);
+            ops.push(format!("a:{}", show_es(&more)));
+            let d = r.range(2, sh.last().0);
+            let (pi, pt) = (d - 1, sh.term_at(d - 1).unwrap_or(1));
+            let tail = sh.run(d, r.range(1, 2), t + 1);
+            sh.fca(pi, pt, &tail);
+            ops.push(format!("f:{}.{}:{}", pi, pt, show_es(&tail)));
+            if r.chance(1, 2) {
+                ops.push("fl".into());
+            }
+        }
+    }
+    ops.push(if r.chance(1, 2) { "c:p".into() } else { "c:w".into() });
+    if r.chance(1, 3) {
+        ops.push(if r.chance(1, 2) { "c:p".into() } else { "c:w".into() });
+    }
+    format!("e=sim|{}", ops.join(";"))
 }
 
 /// malformed stream: gapped / unsorted / duplicate indexes, decreasing terms, term 0, index 0, far indexes
@@ -1104,11 +1187,11 @@ fn exhaustive(len: usize, out: &mut Vec<String>) {
                     format!("f:{}.{}:{}", pi, pt, show_es(&es))
                 }
                 5 => {
-                    // resend the last two entries
+                    // resend the entry before the last one only (a strict prefix of what is there)
                     let back = 2.min(sh.log.len());
                     let start = sh.log.len() - back;
                     let (pi, pt) = if start == 0 { sh.anchor } else { (sh.log[start - 1].0, sh.log[start - 1].1) };
-                    let es: Vec<_> = sh.log[start..].to_vec();
+                    let es: Vec<_> = sh.log[start..(start + 1).min(sh.log.len())].to_vec();
                     format!("f:{}.{}:{}", pi, pt, show_es(&es))
                 }
                 6 => {
@@ -1153,6 +1236,7 @@ fn generate(r: &mut Rng, n: usize, tier: &str) -> Vec<String> {
             0..=9 => structured_case(r, false, false),
             10..=12 => structured_case(r, true, false),
             13 | 14 => structured_case(r, false, true),
+            15 => scenario_case(r),
             _ => malformed_case(r),
         });
     }
